@@ -456,7 +456,9 @@ func init() {
 				pc.Send(respFrame(f, 0, f.Body))
 			}
 		}
-		cl, err := t.NewClient(p, defaultCfg())
+		cfgU := defaultCfg()
+		cfgU.URLSuffix = "?token=abc&region=hk" // the address the user dials may carry parameters of its own
+		cl, err := t.NewClient(p, cfgU)
 		if err != nil {
 			t.Check("setup", false, "dial: %v", err)
 			return
